@@ -47,9 +47,13 @@ structure Tables where
   mtype : List (Nat × MsgClass)
   /-- `_hcode`: field code ↦ attribute name, in dict order -/
   hcode : List (Nat × Attr)
-  /-- alignment column of `marshal.dbus_types` (type code ↦ alignment; 0 for a code not in the table) -/
+  /-- what `marshal.pad[code]` implements (type code ↦ alignment; 0 for a code without entry) -/
   align : Char → Nat
   /-- the path `MethodCallMessage.__init__` refuses -/
   reservedPath : List Char
+  /-- `_maxMsgLen` as each class sees it -/
+  maxMsgLenOf : MsgClass → Nat
+  /-- the alignment `marshal.pad['header']` implements -/
+  headerAlign : Nat
 
 end Txdbus.Msg
